@@ -239,14 +239,6 @@ Fixpoint replay (fuel : nat) (cands : list state) (steps : list (op * obs)) : li
 Definition still_ok (s : state) (still : list N) : bool :=
   list_eqb N.eqb (rev (map fst (s_pend s))) still.
 
-(** the sends listed in [still] are all low-priority wait-forever sends *)
-Fixpoint low_forever_ops (ops : list op) : list N :=
-  match ops with
-  | [] => []
-  | OSend p _ _ false MForever None :: tl => p :: low_forever_ops tl
-  | _ :: tl => low_forever_ops tl
-  end.
-
 Definition check_case (c : case) : verdict :=
   match c with
   | Scripted cp steps still =>
@@ -260,7 +252,7 @@ Definition check_case (c : case) : verdict :=
       let s4 := no_block_forever ops still in
       let kf := if negb s12 then 0
                 else if negb s3 then (if s3sub then 2 else 0)
-                else if negb s4 && forallb (fun p => memN p (low_forever_ops ops)) still then 1 else 0 in
+                else 0 in   (* a send still parked after Queue.Close (clause 4) matches no known finding *)
       (m, s12 && s3 && s4, kf)
   | Concurrent log => mk_verdict true (conc_ok log)
   end.
